@@ -109,7 +109,9 @@ def run(rep, tier, seed):
             if rng.random() < (0.5 if tier == "quick" else 1.0):
                 inp = os.path.join(rundir, "in.txt"); open(inp, "wb").write(src)
                 langs = ["en", "es", "de", "fr", "nl", "sv", "he"]
-                args = [cli, "-t", FMTNAME[f]] + fl + (["-l", LANGS[lang]] if lang else [])
+                # the tool transcludes {{file}} markers before converting (its own, documented step; C13) - switched off so that
+                # the comparison is with the same conversion the API calls perform
+                args = [cli, "--notransclude", "-t", FMTNAME[f]] + fl + (["-l", LANGS[lang]] if lang else [])
                 r1 = subprocess.run(args + [inp], capture_output=True, env=common.RUN_ENV, timeout=120)
                 outp = os.path.join(rundir, "out.bin")
                 if os.path.exists(outp): os.unlink(outp)
